@@ -42,7 +42,7 @@ func fullSeed() *mbucket {
 	x.ent["y"] = &ment{sub: leaf(2)}
 	root.ent["x"] = &ment{sub: x}
 	root.ent["y"] = &ment{sub: leaf(0)}
-	return root
+	return newTop(root)
 }
 
 func universes(thorough bool) []*Universe {
@@ -54,10 +54,25 @@ func universes(thorough bool) []*Universe {
 	}
 	all := []string{"a", "b", "ab", "\x00", "\xff", ""}
 	keyVals := []string{"1"}
+	nestKeys, nestNames := []string{"a"}, []string{"x", "y"}
 	if thorough {
 		keyVals = []string{"", "1"}
+		nestKeys, nestNames = []string{"a", "x"}, []string{"x", "y", ""}
 	}
+	inX := func(o Op) Op { o.Root = "x"; return o }
+	inY := func(o Op) Op { o.Root = "y"; return o }
 	us := []*Universe{
+		{
+			// top-level buckets next to the namespace bucket: created, deleted, looked up and
+			// listed through the transaction, with reads and writes inside looked-up buckets
+			Name: "toplevel", TopNames: []string{"x", "y"}, TopRecreate: []string{"x"},
+			TopOps: []Op{
+				inX(Op{Kind: opPut, K: "a", V: "1"}), inX(Op{Kind: opGet, K: "a"}), inX(Op{Kind: opDel, K: "a"}),
+				inY(Op{Kind: opPut, K: "a", V: "1"}),
+				{Kind: opGet, K: "a"},
+			},
+			MaxOps: 3, BatchOps: 2, ReopenAll: true, MaxEntries: 5,
+		},
 		{
 			// sequence numbers per bucket, reset by delete + recreate
 			Name: "sequence", Locs: [][]string{locRoot, locX}, BNames: []string{"x"}, Seq: true,
@@ -76,8 +91,8 @@ func universes(thorough bool) []*Universe {
 		},
 		{
 			// nested buckets as independent namespaces; key "x" doubles as plain key and bucket name
-			Name: "nesting", Locs: [][]string{locRoot, locX, locY, locXY}, Keys: []string{"a", "x"}, Vals: []string{"1"},
-			BNames: []string{"x", "y", ""}, Walk: true, CurDel: true,
+			Name: "nesting", Locs: [][]string{locRoot, locX, locY, locXY}, Keys: nestKeys, Vals: []string{"1"},
+			BNames: nestNames, Walk: true, CurDel: true,
 			MaxOps: 2, MaxEntries: pick(2, 4),
 		},
 		{
@@ -85,7 +100,7 @@ func universes(thorough bool) []*Universe {
 			Name: "full-alphabet", Locs: [][]string{locRoot, locX, locY, locXY},
 			Keys: append(append([]string{}, all...), "x"), SeekKeys: append(append([]string{}, all...), "x"),
 			Vals: []string{"", "1"}, BNames: []string{"x", "y", "a", ""}, Seq: true, Walk: true, CurDel: true,
-			MaxOps: 1, MaxEntries: pick(2, 3), SeqMax: 0, Seeds: []*mbucket{fullSeed()},
+			MaxOps: 1, MaxEntries: pick(1, 3), SeqMax: 0, Seeds: []*mbucket{fullSeed()},
 		},
 	}
 	if thorough {
